@@ -24,7 +24,7 @@ enum Kind {
     Bad,
 }
 
-const PRELUDE: &str = "TYPE Rec\nCode AS STRING * 4\nN AS INTEGER\nEND TYPE\nDECLARE FUNCTION FI% (K%)\nDECLARE FUNCTION FS$ (S$)\nDECLARE SUB PI (K%)\nDECLARE SUB PS (S$)\nDIM FX AS STRING * 4\nDIM R AS Rec\nDIM AI%(3)\nDIM AS$(3)\nDIM AF(3) AS STRING * 4\nI% = 1\nL& = 2\nS! = 1.5\nD# = 2.5\nT$ = \"ab\"\nFX = \"wxyz\"\nR.Code = \"abcd\"\nR.N = 3\nAI%(1) = 1\nAS$(1) = \"x\"\nAF(1) = \"q\"\n";
+const PRELUDE: &str = "TYPE Rec\nCode AS STRING * 4\nN AS INTEGER\nEND TYPE\nDECLARE FUNCTION FI% (K%)\nDECLARE FUNCTION FS$ (S$)\nDECLARE SUB PI (K%)\nDECLARE SUB PS (S$)\nDIM FX AS STRING * 4\nDIM R AS Rec\nDIM AI%(3)\nDIM AS$(3)\nDIM AF(3) AS STRING * 4\nDIM AR(3) AS Rec\nI% = 1\nL& = 2\nS! = 1.5\nD# = 2.5\nT$ = \"ab\"\nFX = \"wxyz\"\nR.Code = \"abcd\"\nR.N = 3\nAI%(1) = 1\nAS$(1) = \"x\"\nAF(1) = \"q\"\n";
 const EPILOGUE: &str = "PRINT \"done\"\nEND\nFUNCTION FI% (K%)\nFI% = K% + 1\nEND FUNCTION\nFUNCTION FS$ (S$)\nFS$ = S$ + \"!\"\nEND FUNCTION\nSUB PI (K%)\nPRINT K%\nEND SUB\nSUB PS (S$)\nPRINT S$\nEND SUB\n";
 
 const OPERANDS: [(&str, Kind); 18] = [
@@ -63,7 +63,7 @@ fn bin_kind(op: &str, a: Kind, b: Kind) -> Kind {
 }
 
 /// (name, lines with @ for the expression, index of the line that holds @, kind the position needs: None = any)
-const CONTEXTS: [(&str, &str, usize, Option<Kind>); 21] = [
+const CONTEXTS: [(&str, &str, usize, Option<Kind>); 23] = [
     ("assignment to DOUBLE", "X# = @", 0, Some(Kind::Num)),
     ("assignment to STRING", "X$ = @", 0, Some(Kind::Str)),
     ("PRINT list", "PRINT 1; @; 2", 0, None),
@@ -85,6 +85,8 @@ const CONTEXTS: [(&str, &str, usize, Option<Kind>); 21] = [
     ("FOR start", "FOR Q# = @ TO 0\nNEXT", 0, Some(Kind::Num)),
     ("FOR step", "FOR Q# = 1 TO 0 STEP @\nNEXT", 0, Some(Kind::Num)),
     ("DO UNTIL condition", "DO\nLOOP UNTIL (@) OR 1", 1, Some(Kind::Num)),
+    ("subscript of an array of records (read)", "PRINT AR(@).N", 0, Some(Kind::Num)),
+    ("subscript of an array of records (assignment target)", "AR(@).N = 7", 0, Some(Kind::Num)),
 ];
 
 struct Gen {
@@ -619,7 +621,7 @@ pub fn drive(tier: &str) -> i32 {
     }
     groups.push(super::run_text_group(&mut run, &pool, "statement templates x operand menu: soundness, renaming", &stmts, 40, &extra));
     let mut ev = Evidence::new("exploration");
-    ev.set("rule", "typed: every operand, unary and binary expression (13 operators) over 10 (thorough 18) operands of all kinds (a whole record, literals, variables of every numeric type, strings, fixed-length strings as variable / array element / record member, array elements, user FUNCTION results, built-in results) in 21 syntactic positions (assignments, PRINT list, parentheses, IF / WHILE / DO conditions, SELECT subject, CASE lists, FOR start / limit / step, array subscripts and bounds, by-value SUB arguments, FUNCTION arguments inside a subscript, built-in arguments): a kind model (numeric / string / ill-kinded) decides which programs must be rejected with a type error in the statement that holds the expression; accepted programs are executed and must not raise Type mismatch (13) nor panic. calls: 9 ill-formed calls of user-defined and built-in functions (argument count, argument type, by-reference type) bare, in parentheses, as an operand, inside a subscript and as an argument, in each of the 21 positions: rejected with the matching error at the statement's row. corpus: every harvested text, generated control program and statement template is run (soundness oracle outside READ / INPUT / PRINT USING statements), renamed consistently in two ways (every user-chosen word component gets a suffix; first letter and type suffix kept): same verdict and output; every accepted one is edited once at every applicable site (numeric literal next to * or / -> string literal, GOTO / GOSUB target -> missing label, NEXT counter -> another name, label line / DIM line duplicated, one more argument in a SUB call): rejected, and where the error is of the edit's family it is located at the edited row.");
+    ev.set("rule", "typed: every operand, unary and binary expression (13 operators) over 10 (thorough 18) operands of all kinds (a whole record, literals, variables of every numeric type, strings, fixed-length strings as variable / array element / record member, array elements, user FUNCTION results, built-in results) in 23 syntactic positions (assignments, PRINT list, parentheses, IF / WHILE / DO conditions, SELECT subject, CASE lists, FOR start / limit / step, array subscripts and bounds, the subscript of an array-of-records element read and assigned through a field, by-value SUB arguments, FUNCTION arguments inside a subscript, built-in arguments): a kind model (numeric / string / ill-kinded) decides which programs must be rejected with a type error in the statement that holds the expression; accepted programs are executed and must not raise Type mismatch (13) nor panic. calls: 9 ill-formed calls of user-defined and built-in functions (argument count, argument type, by-reference type) bare, in parentheses, as an operand, inside a subscript and as an argument, in each of the 23 positions: rejected with the matching error at the statement's row. corpus: every harvested text, generated control program and statement template is run (soundness oracle outside READ / INPUT / PRINT USING statements), renamed consistently in two ways (every user-chosen word component gets a suffix; first letter and type suffix kept): same verdict and output; every accepted one is edited once at every applicable site (numeric literal next to * or / -> string literal, GOTO / GOSUB target -> missing label, NEXT counter -> another name, label line / DIM line duplicated, one more argument in a SUB call): rejected, and where the error is of the edit's family it is located at the edited row.");
     ev.set("exhaustive", !run.capped);
     ev.set("groups", json!(groups));
     ev.set("plan", json!({"typed_expressions": nexpr, "positions": CONTEXTS.len(), "ill_formed_calls": ctotal}));
